@@ -165,7 +165,7 @@ func genFilter(r *rand.Rand, class *[]string) string {
 	return " | " + genLF(r, 0)
 }
 
-var jsonPaths = []string{"a", "a.b", "level", "msg", "x.y.z", `["k 1"]`, `a["b"].c`, "n"}
+var jsonPaths = []string{"a", "a.b", "level", "msg", "x.y.z", `["k 1"]`, `a["b"].c`, "n", "a[0]", "l[1].b"}
 
 func genJson(r *rand.Rand, class *[]string) string {
 	*class = append(*class, "json")
@@ -591,6 +591,19 @@ func info(script *logql_parser.LogQLScript) *qinfo {
 				if err != nil {
 					return nil
 				}
+				// an [n] part: the byte 0 followed by the digits of n+1, a key that begins with the byte 0: that byte doubled
+				// (as harness logqlsql hands them to the planner model)
+				if typed, terr := shared.JsonPathParamToTypedArray(unq(&pp.Val)); terr == nil {
+					for i := range path {
+						if i < len(typed) {
+							if _, isIdx := typed[i].(int); isIdx {
+								path[i] = "\x00" + path[i]
+							} else if len(path[i]) > 0 && path[i][0] == 0 {
+								path[i] = "\x00" + path[i]
+							}
+						}
+					}
+				}
 				qi.jparams = append(qi.jparams, jparam{label, path})
 				qi.addLabel(label, "")
 			}
@@ -753,7 +766,17 @@ func genDB(r *rand.Rand, qi *qinfo, c Ctx) DB {
 				} else if r.Intn(12) == 0 {
 					v = map[string]interface{}{"nested": best}
 				}
-				setPath(doc, jp.path, v)
+				pth := jp.path
+				if r.Intn(8) == 0 {
+					// an object member named like the index where the path expects an array item: a key is not an index
+					pth = append([]string{}, jp.path...)
+					for i := range pth {
+						if n, ok := idxPart(pth[i]); ok {
+							pth[i] = strconv.Itoa(n)
+						}
+					}
+				}
+				setPath(doc, pth, v)
 			}
 			b, err := json.Marshal(doc)
 			if err == nil && json.Valid(b) {
@@ -841,26 +864,53 @@ func genDB(r *rand.Rand, qi *qinfo, c Ctx) DB {
 	return db
 }
 
-// setPath writes v at the nested object path (every path element is an object key: the planner quotes
-// array indexes too)
-func setPath(doc map[string]interface{}, path []string, v interface{}) {
-	cur := doc
-	for i, k := range path {
-		if i == len(path)-1 {
-			cur[k] = v
-			return
-		}
-		next, ok := cur[k].(map[string]interface{})
-		if !ok {
-			next = map[string]interface{}{}
-			cur[k] = next
-		}
-		cur = next
+// idxPart: an [n] part of a path as the harness carries it (byte 0 + the digits of the 1-based index)
+func idxPart(k string) (int, bool) {
+	if len(k) > 1 && k[0] == 0 && k[1] != 0 {
+		n, err := strconv.Atoi(k[1:])
+		return n, err == nil
 	}
+	return 0, false
+}
+
+// keyPart: the object key a key part stands for (a key that begins with the byte 0 is carried with that byte doubled)
+func keyPart(k string) string {
+	if len(k) > 1 && k[0] == 0 && k[1] == 0 {
+		return k[1:]
+	}
+	return k
+}
+
+// setPath writes v at the nested path: a key part makes / enters an object, an index part an array (padded)
+func setPathV(cur interface{}, path []string, v interface{}) interface{} {
+	if len(path) == 0 {
+		return v
+	}
+	if n, ok := idxPart(path[0]); ok {
+		arr, _ := cur.([]interface{})
+		for len(arr) < n {
+			arr = append(arr, "pad")
+		}
+		if n >= 1 {
+			arr[n-1] = setPathV(arr[n-1], path[1:], v)
+		}
+		return arr
+	}
+	m, ok := cur.(map[string]interface{})
+	if !ok {
+		m = map[string]interface{}{}
+	}
+	m[keyPart(path[0])] = setPathV(m[keyPart(path[0])], path[1:], v)
+	return m
+}
+
+func setPath(doc map[string]interface{}, path []string, v interface{}) {
+	setPathV(doc, path, v)
 }
 
 // jsonGet is the oracle for if(JSONType(doc, path...) == 'String', JSONExtractString(doc, path...),
-// JSONExtractRaw(doc, path...)): every path element is a string, i.e. an object key; a string value is
+// JSONExtractRaw(doc, path...)): a string path element is an object key, a number (an [n] part) the n-th item of an
+// array counted from 1; a string value is
 // returned unquoted, any other value as its text, nothing (”) when the document is not JSON or the path is
 // missing. (The trusted reading of those ClickHouse functions for the failing-input search.)
 func jsonGet(line string, path []string) string {
@@ -869,6 +919,16 @@ func jsonGet(line string, path []string) string {
 		return ""
 	}
 	for _, k := range path {
+		if n, ok := idxPart(k); ok {
+			// an integer argument: the n-th item of an array, counted from 1; anything else has no such item
+			var arr []json.RawMessage
+			if err := json.Unmarshal(cur, &arr); err != nil || n < 1 || n > len(arr) {
+				return ""
+			}
+			cur = arr[n-1]
+			continue
+		}
+		k = keyPart(k)
 		var obj map[string]json.RawMessage
 		if err := json.Unmarshal(cur, &obj); err != nil {
 			return ""
